@@ -370,6 +370,49 @@ def _gen_sync(rng):
     return evs
 
 
+def _replay_events(evs):
+    """a fixed event list on a fresh implementation: (flattened hashed records, full records, Coq list)"""
+    d = _driver()
+    im = d.Impl()
+    recs, full, parts = [], [], []
+    k = 0
+    for e in evs:
+        flat, wires, code = im.apply(e)
+        recs += flat
+        full.append(im.last_full)
+        if e[0] == 'settoc':
+            parts.append(d.coq_ev(e, im.model_tocs[k]))
+            k += 1
+        else:
+            parts.append(d.coq_ev(e))
+    return recs, full, '[' + '; '.join(parts) + ']'
+
+
+def _shrink_history(evs, rounds=16):
+    """delta debugging on the event list; every round evaluates all candidates in one batch of coqc runs"""
+    cur = list(evs)
+    chunk = max(1, len(cur) // 2)
+    while rounds > 0 and len(cur) > 1:
+        rounds -= 1
+        cands = [cur[:i] + cur[i + chunk:] for i in range(0, len(cur), chunk)]
+        cands = [c for c in cands if c]
+        data = [_replay_events(c) for c in cands]
+        try:
+            bad = coqrun.compare_blocks(HEADER, ['enc_run init_st ' + t for _, _, t in data], [r for r, _, _ in data],
+                                        tag='c05k', shard=max(1, len(cands) // 12 + 1), timeout=600)
+        except coqrun.CoqError:
+            break
+        idx = [bi for bi, _ in bad]
+        if idx:
+            cur = cands[min(idx, key=lambda i: len(cands[i]))]
+            chunk = max(1, min(chunk, len(cur) // 2))
+        elif chunk == 1:
+            break
+        else:
+            chunk = max(1, chunk // 2)
+    return cur
+
+
 def tie(ctx):
     if hasattr(coqrun, 'build'):
         coqrun.build('C05/TieEnc.v', timeout=600)
@@ -386,25 +429,29 @@ def tie(ctx):
     dis = []
     bad = [bi for bi, _ in coqrun.compare_blocks(HEADER, terms, exp, tag='c05h', shard=max(4, n // 32 + 1),
                                                  timeout=900)]
-    for bi in bad[:4]:
+    # the shortest differing histories are shrunk (events removed while model and implementation still
+    # differ) and the difference is localised to an event
+    for bi in sorted(bad, key=lambda i: len(gens[i].evs))[:2]:
         g = gens[bi]
-        lst = '[' + g.coq_term('X').split('[', 1)[1]
+        evs = _shrink_history(g.evs)
+        recs, full, lst = _replay_events(evs)
         hs = coqrun.eval_terms(HEADER, ['map rec_hash (enc_run_recs init_st %s)' % lst], tag='c05f', timeout=900)[0]
         d = _driver()
         i = 0
-        while i < len(g.full) and i < len(hs):
-            a, b = d.st_hash(g.full[i])
-            if hs[i] != a + 65536 * b:
+        while i < len(full) and i < len(hs):
+            a, b2 = d.st_hash(full[i])
+            if hs[i] != a + 65536 * b2:
                 break
             i += 1
         m = coqrun.eval_terms(HEADER, ['nth %d (enc_run_recs init_st %s) []' % (i, lst)], tag='c05g',
-                              timeout=900)[0] if i < len(g.full) else None
-        dis.append({'what': 'log history: model and implementation differ', 'history': g.evs[:i + 1],
-                    'event_index': i, 'event': g.evs[i] if i < len(g.evs) else None,
-                    'impl_record': g.full[i] if i < len(g.full) else None, 'model_record': m,
+                              timeout=900)[0] if i < len(full) else None
+        dis.append({'what': 'log history: model and implementation differ', 'history': evs[:i + 1],
+                    'shrunk_from_events': len(g.evs), 'shrunk_to_events': len(evs),
+                    'event_index': i, 'event': evs[i] if i < len(evs) else None,
+                    'impl_record': full[i] if i < len(full) else None, 'model_record': m,
                     'record_format': '[#obs] obs.. [exception] state.. (coq/C05/TieEnc.v enc_run_recs)'})
-    if len(bad) > 4:
-        dis.append({'what': 'log history: model and implementation differ', 'more_histories': len(bad) - 4})
+    if len(bad) > 2:
+        dis.append({'what': 'log history: model and implementation differ', 'more_histories': len(bad) - 2})
     # SyncLogger scripts
     d = _driver()
     ns = ctx.scale(200, 4000)
@@ -540,26 +587,76 @@ def _check_block(case):
     typed = [v for v in spec if v[0] != 'd']
     dflt = [v for v in spec if v[0] == 'd']
     table_names = [v[1] for v in spec if v[0] != 'm']
-    in_toc = all(n in toc for n in table_names)
-    size = sum(DEV_SIZE[v[2]] for v in typed) + sum(DEV_SIZE[toc[v[1]][1]] for v in dflt if v[1] in toc)
-    want_accept = in_toc and (10 <= ms < 2550) and size <= 26
-    wires, code, obs = ev(['addcfg', 0])
-    if wires:
-        raise _Fail('add_config_sent_packets', [], wires)
-    if (code == 0) != want_accept:
-        raise _Fail('accept_mismatch', 'accepted' if want_accept else 'rejected',
-                    'accepted' if code == 0 else 'raised code %d' % code,
-                    'names in TOC: %s, period_in_ms: %s, payload bytes: %s' % (in_toc, ms, size))
-    if not want_accept:
+
+    def cfg_state():
+        return {'variables': [[v.name, v.fetch_as, v.stored_as, v.is_toc_variable()] for v in cfg.variables],
+                'default_fetch_as': list(cfg.default_fetch_as),
+                'log_blocks': [im._h(b) for b in im.log.log_blocks], 'id': cfg.id, 'cf_set': cfg.cf is not None,
+                'counter': im.log._config_id_counter}
+    # the configuration is offered to the table of the first session and, if that one rejects it, to the
+    # table of a second session (`retry_toc`, a device that has every variable)
+    tables = [case['toc']] + ([case['retry_toc']] if case.get('retry_toc') else [])
+    accepted = False
+    for k, table in enumerate(tables):
+        if k > 0:
+            ev(['linkdown'])
+            open_session(table)
+            toc.clear()
+            for nm, ident, ty in table:
+                toc[nm] = (ident, ty)
+        in_toc = all(n in toc for n in table_names)
+        resolved_ty = {v.name: v.fetch_as for v in cfg.variables[len(typed):]}
+        size = sum(DEV_SIZE[v[2]] for v in typed) + sum(
+            DEV_SIZE[resolved_ty.get(d.name_str(v[1]), toc[v[1]][1])] for v in dflt if v[1] in toc)
+        want_accept = in_toc and (10 <= ms < 2550) and size <= 26
+        st0 = cfg_state()
+        wires, code, obs = ev(['addcfg', 0])
+        if wires:
+            raise _Fail('add_config_sent_packets', [], wires)
+        if (code == 0) != want_accept:
+            raise _Fail('accept_mismatch', 'accepted' if want_accept else 'rejected',
+                        'accepted' if code == 0 else 'raised code %d' % code,
+                        'add_config no. %d; names in TOC: %s, period_in_ms: %s, payload bytes: %s' % (
+                            k + 1, in_toc, ms, size))
+        if want_accept:
+            accepted = True
+            break
+        # a rejected add announces nothing (nothing sent: checked above) and does not register the block
+        st1 = cfg_state()
+        quiet0 = {k2: st0[k2] for k2 in ('log_blocks', 'id', 'cf_set', 'counter')}
+        quiet1 = {k2: st1[k2] for k2 in ('log_blocks', 'id', 'cf_set', 'counter')}
+        if quiet1 != quiet0 or obs or cfg.valid:
+            raise _Fail('rejected_add_announced_or_registered', quiet0, dict(quiet1, callbacks=obs, valid=cfg.valid),
+                        'add_config no. %d raised (code %d)' % (k + 1, code))
+    if not accepted:
         for op in ('start', 'stop', 'delete', 'create'):
             wires, code, obs = ev([op, 0])
             if wires:
                 raise _Fail('rejected_config_sent_packets', [], wires, op)
         return
+    # accepted: the configuration has exactly the variables the user asked for -- each name once, typed ones
+    # first (with the requested type), then the default-typed ones in their order (with the stored type of a
+    # table the configuration was offered to); nothing is left pending
+    want_names = [d.name_str(v[1]) for v in typed] + [d.name_str(v[1]) for v in dflt]
+    got_list = [[v.name, v.fetch_as] for v in cfg.variables]
+    offered = {}
+    for table in tables[:k + 1]:
+        for nm, ident, ty in table:
+            offered.setdefault(nm, set()).add(ty)
+    types_ok = len(got_list) == len(want_names) and \
+        all(g[1] == v[2] for g, v in zip(got_list, typed)) and \
+        all(g[1] in offered.get(v[1], ()) for g, v in zip(got_list[len(typed):], dflt))
+    if [g[0] for g in got_list] != want_names or not types_ok or cfg.default_fetch_as:
+        raise _Fail('accepted_variable_list_mismatch',
+                    [[d.name_str(v[1]), v[2]] for v in typed] + [[d.name_str(v[1]), toc[v[1]][1]] for v in dflt],
+                    [got_list, list(cfg.default_fetch_as)],
+                    'variable list of the accepted configuration (name, fetch type): every requested variable '
+                    'exactly once, in order (add_config no. %d)' % (k + 1))
     if cfg not in im.log.log_blocks or not cfg.valid:
         raise _Fail('accepted_not_registered', True, [cfg.valid])
     # the variable list the block must have on the device
-    want_vars = [[v[1], v[2], v[0] == 'm'] for v in typed] + [[v[1], toc[v[1]][1], False] for v in dflt]
+    want_vars = [[v[1], v[2], v[0] == 'm'] for v in typed] + \
+        [[v[1], g[1], False] for v, g in zip(dflt, got_list[len(typed):])]
 
     def check_creation(tag):
         wires, code, obs = ev(['start', 0])
@@ -756,12 +853,13 @@ def _gen_block_case(rng, force=None):
     rng.shuffle(pool)
     vs = []
     miss = rng.random() < 0.06
+    dprob = 0.6 if rng.random() < 0.2 else 0.15
     for k, t in enumerate(tys):
         if not pool:
             break
         nm = pool.pop()
         r = rng.random()
-        if r < 0.15:
+        if r < dprob:
             # default type: choose a name whose stored type has the wanted size when possible
             cands = [p for p in pool if DEV_SIZE[tocd[p]] == DEV_SIZE[t]]
             if cands:
@@ -793,6 +891,14 @@ def _gen_block_case(rng, force=None):
         samples.append([rng.choice([0, 0xFFFFFF, rng.getrandbits(24), rng.getrandbits(24)]), vals])
     case = {'kind': 'block', 'toc': toc, 'ms': ms, 'vars': vs, 'samples': samples,
             'delete': rng.random() < 0.5, 'reconnect': rng.random() < 0.6}
+    tn = [v for v in vs if v[0] != 'm']
+    if len(tn) >= 2 and not miss and rng.random() < 0.2:
+        # the first device lacks one of the variables (not the first one): rejected with KeyError; the
+        # configuration is then offered again to a device that has them all
+        dn = [v for v in tn if v[0] == 'd']
+        pick = rng.choice(dn[1:]) if len(dn) >= 2 and rng.random() < 0.7 else rng.choice(tn[1:])
+        case['retry_toc'] = toc
+        case['toc'] = [e for e in toc if e[0] != pick[1]]
     if case['delete']:
         case['restart'] = rng.choice([None, 'start', 'start', 'addstart'])
     if case['reconnect']:
@@ -838,6 +944,63 @@ def _run_case(case):
     return None
 
 
+def _shrink(case, cls, budget=400):
+    """greedy reduction of a failing case: keep a candidate when it still fails with the same class"""
+    import copy
+
+    def fails(c):
+        try:
+            f = _run_case(c)
+        except Exception:
+            return False
+        return f is not None and f['class'] == cls
+    cur = copy.deepcopy(case)
+    n = [0]
+
+    def attempt(c):
+        n[0] += 1
+        return n[0] <= budget and fails(c)
+    changed = True
+    while changed and n[0] < budget:
+        changed = False
+        if cur['kind'] == 'sync':
+            for i in range(len(cur['script'])):
+                c = dict(cur, script=cur['script'][:i] + cur['script'][i + 1:])
+                if attempt(c):
+                    cur, changed = c, True
+                    break
+            continue
+        cands = []
+        for key, val in (('reconnect', False), ('delete', False), ('restart', None), ('toc2', None), ('samples', []),
+                         ('ms', 100)):
+            if cur.get(key) not in (val, None) or (key == 'ms' and cur.get('ms') != 100):
+                c = copy.deepcopy(cur)
+                if val is None:
+                    c.pop(key, None)
+                else:
+                    c[key] = val
+                cands.append(c)
+        for i in range(len(cur['vars'])):
+            c = copy.deepcopy(cur)
+            del c['vars'][i]
+            c['samples'] = [[ts, vals[:i] + vals[i + 1:]] if len(vals) > i else [ts, vals] for ts, vals in c['samples']]
+            c['samples'] = []          # sample layout depends on the variable order: drop them with the variable
+            cands.append(c)
+        used = set(v[1] for v in cur['vars'])
+        for key in ('toc', 'retry_toc', 'toc2'):
+            if cur.get(key):
+                keep = [e for e in cur[key] if e[0] in used]
+                if len(keep) < len(cur[key]):
+                    c = copy.deepcopy(cur)
+                    c[key] = keep
+                    cands.append(c)
+        for c in cands:
+            if attempt(c):
+                cur, changed = c, True
+                break
+    return cur
+
+
 def _corpus():
     p = os.path.join(coqrun.VERIF, 'corpus', 'C05')
     out = []
@@ -867,6 +1030,14 @@ def oracle(ctx, deep=False):
             if seen[k] <= 1 or (len(json.dumps(f['case'])) < len(json.dumps(
                     next(x for x in fails if x['class'] == k)['case']))):
                 fails = [x for x in fails if x['class'] != k] + [f]     # keep the smallest witness per class
+    for f in fails:
+        try:
+            f['case'] = _shrink(f['case'], f['class'])
+            g = _run_case(f['case'])
+            if g is not None and g['class'] == f['class']:
+                f.update(g)
+        except Exception:
+            pass
     return {'evaluations': n, 'failures': fails,
             'rule': 'random block scenarios on the real Log/LogConfig with an independent device (accept iff, nothing '
                     'sent when rejected, V2 create/append messages decoded as the firmware does, acks -> flags and '
@@ -898,6 +1069,9 @@ ASSUMPTIONS = [
     'the YBlocked observation of the model',
 ]
 PROVED = ('Over the model: add_config accepts iff names in TOC, 1<=int(ms/10)<=254 and payload<=26 and never sends; a '
+          'rejected add_config announces and registers nothing; INVARIANT for every history: nothing but add_variable/'
+          'add_memory duplicates, drops or reorders a requested name (add_config only moves pending names, in order, to '
+          'the typed list), so an accepted configuration enumerates each requested variable exactly once; a '
           'never-accepted configuration sends nothing in any history; for table variables the V2 create/append '
           'messages are each <=30 bytes, headed 6/7+id, decoded by the device into exactly the variables in order '
           '(split after every 9th variable, ceil(n/9) messages), create() always terminates; unpack_log_data and the '
